@@ -11,7 +11,9 @@ Monitor shape
     the ordered mapped run texts (independent symbol table), the documented template rendering (or why
     the tests/README do not define it: ``unclaimed``), literal braces, malformed radicals, risky features.
 
-Clauses: (1) totality/progress  (2) determinism + input not mutated  (3) every run text once, in order
+Clauses: (1) totality/progress  (2) determinism + input not mutated; over histories on one element object (every 16th tree:
+convert, edit the tree in place — text, attribute, child removed, run appended, structure copied, content replaced — convert the
+same object again) the result equals that of a freshly parsed copy of the edited tree  (3) every run text once, in order
 (4) balanced braces without literal braces  (5) documented template with operands in place.
 Malformed radicals (operand = lone opening bracket, by design): (1) (2) (4) only.
 """
@@ -28,6 +30,7 @@ LEVEL = "exploration"
 MODNAME = "sharepoint2text.parsing.extractors.util.omml_to_latex"
 COMPONENT = "omml_to_latex"
 BATCH = 150
+HISTORY_EVERY = 16         # every 16th generated tree is additionally taken through an edit history on one element object
 
 # ======================================================================================================
 # child side
@@ -79,7 +82,87 @@ def work_init(init: dict) -> None:
     install_contract()
 
 
-def _observe(xml: str) -> dict:
+_M = "{http://schemas.openxmlformats.org/officeDocument/2006/math}"
+_OPERAND_TAGS = ("e", "num", "den", "sub", "sup", "deg", "fName", "lim", "oMath")
+HISTORY_STEPS = ("text-changed", "attribute-changed", "child-removed", "run-appended", "structure-copied", "content-replaced")
+
+
+def _history(f, t1, seed: int) -> list:
+    """Histories on ONE element object: after each in-place edit of the tree that was already converted, the conversion of
+    that same object must equal the conversion of a freshly parsed copy of what the tree is now (the result is a function
+    of the tree, not of what the object was when it was first seen).  Edits are chosen from the tree itself."""
+    import copy
+    import random
+    from xml.etree import ElementTree as ET
+    from vlib.worker import arm_cpu, disarm_cpu
+    rnd = random.Random(seed)
+    steps = []
+
+    def conv(e):
+        try:
+            return ["ok", f(e)]
+        except Exception as ex:
+            return ["exc", type(ex).__name__]
+
+    def compare(kind):
+        same = conv(t1)
+        now = ET.tostring(t1, encoding="unicode")
+        fresh = conv(ET.fromstring(now))
+        st = {"kind": kind, "agree": same == fresh}
+        if not st["agree"]:
+            st.update(same=str(same[1])[:300], fresh=str(fresh[1])[:300], tree=now[:1500])
+        elif same[0] == "exc":
+            st["raised"] = same[1]
+        steps.append(st)
+
+    local = lambda e: e.tag.split("}")[-1]
+    nodes = sum(1 for _ in t1.iter())
+    arm_cpu(0.1 * nodes + 5.0)
+    try:
+        ts = [e for e in t1.iter() if local(e) == "t"]
+        if ts:
+            e = rnd.choice(ts)
+            e.text = (e.text or "") + rnd.choice(("qh00007z", "+1", " ", "β"))
+            compare("text-changed")
+        vals = [e for e in t1.iter() if _M + "val" in e.attrib and local(e) in ("chr", "begChr", "endChr", "sepChr")]
+        if vals:
+            e = rnd.choice(vals)
+            old = e.get(_M + "val")
+            if rnd.random() < 0.25:
+                del e.attrib[_M + "val"]
+            else:
+                e.set(_M + "val", rnd.choice([v for v in ("[", "|", "∫", "̃", "", "⟩") if v != old]))
+            compare("attribute-changed")
+        kids = [(p, c) for p in t1.iter() for c in p if local(p) in _OPERAND_TAGS and local(c) not in ("argPr", "ctrlPr", "rPr")]
+        if kids:
+            p, c = rnd.choice(kids)
+            p.remove(c)
+            compare("child-removed")
+        holders = [e for e in t1.iter() if local(e) in _OPERAND_TAGS] or [t1]
+        h = rnd.choice(holders)
+        r = ET.SubElement(h, _M + "r")
+        ET.SubElement(r, _M + "t").text = "qh00008z"
+        compare("run-appended")
+        structs = [e for e in t1.iter() if e is not t1 and len(e) and local(e) not in _OPERAND_TAGS + ("r", "mr", "oMathPara") and not local(e).endswith("Pr")]
+        if structs:
+            rnd.choice(holders).append(copy.deepcopy(rnd.choice(structs)))
+            compare("structure-copied")
+        for c in list(t1):
+            t1.remove(c)
+        fr = ET.SubElement(t1, _M + "f")
+        for nm, tx in (("num", "qh00009z"), ("den", "π")):
+            ET.SubElement(ET.SubElement(ET.SubElement(fr, _M + nm), _M + "r"), _M + "t").text = tx
+        compare("content-replaced")
+    except BaseException as e:
+        if type(e).__name__ != "CpuBudget":
+            raise
+        steps.append({"kind": "cpu-budget", "agree": True, "raised": "CpuBudget"})
+    finally:
+        disarm_cpu()
+    return steps
+
+
+def _observe(xml: str, hist: bool = False) -> dict:
     from xml.etree import ElementTree as ET
     from vlib.worker import arm_cpu, disarm_cpu
     f = _EV["fn"]
@@ -143,6 +226,9 @@ def _observe(xml: str) -> dict:
     if not ob["det"]:
         ob["out2"] = o2 if o2 != o1 else o3
     ob["mut"] = ob["mut"] or _ser(t1) != before
+    if hist and ob["det"]:
+        import zlib
+        ob["hist"] = _history(f, t1, zlib.crc32(xml.encode("utf-8")))
     return ob
 
 
@@ -180,7 +266,7 @@ def work(case: dict) -> dict:
             if _EV.get("hangs", 0) >= 3:    # do not burn the whole budget on a converter that no longer terminates
                 items.append({"i": it["i"], "not_run": True})
                 continue
-            ob = _observe(it["xml"])
+            ob = _observe(it["xml"], bool(it.get("hist")))
             _EV["hangs"] = _EV.get("hangs", 0) + (1 if ob.get("hang") else 0)
             ob["i"] = it["i"]
             items.append(ob)
@@ -554,6 +640,11 @@ def judge(O, a, ob) -> list[tuple[str, str]]:
         v.append(("nondeterministic", f"{out[:200]!r} vs {str(ob.get('out2'))[:200]!r}"))
     if ob.get("mut"):
         v.append(("mutates-input", "the element tree serialises differently after conversion"))
+    bad = [st for st in ob.get("hist", []) if not st["agree"]]
+    if bad:
+        st = bad[0]
+        v.append(("result-depends-on-element-history", f"after in-place edit '{st['kind']}' ({len(bad)} of {len(ob['hist'])} steps differ) the same element object converts to "
+                  f"{st['same']!r}, a freshly parsed copy of the edited tree to {st['fresh']!r}; edited tree {st['tree'][:600]}"))
     if not a.literal_brace and not O.braces_balanced(out):
         v.append(("unbalanced-braces", f"output {out[:300]!r}"))
     if a.malformed == 0:
@@ -587,6 +678,7 @@ def main(run):
                 "option features, risky feature, outcome); non-trivial = the post-condition was evaluated (or the call raised) and "
                 "the output was compared with the analysis of the spec")
     run.assumptions = [
+        "history steps are judged differentially (same object vs. fresh parse of its current serialisation); an exception raised identically by both is counted, not judged",
         "vlib/gen/omml.py writes the XML it claims to (spec -> XML is the ground truth; the reference renderer never reads the XML)",
         "documented forms = sharepoint2text/tests/test_omml_to_latex.py + module docstring; combinations they do not define are counted as unclaimed, not judged by clause 5",
         "a blank is significant only between two letters (it terminates a control word); all other whitespace is ignored when comparing templates",
@@ -618,13 +710,13 @@ def main(run):
                 del specs[i], meta[i]
                 continue
             fam_counts[family] = fam_counts.get(family, 0) + 1
-            batch.append({"i": i, "xml": O.to_xml(spec)})
+            batch.append({"i": i, "xml": O.to_xml(spec), "hist": i % HISTORY_EVERY == 0})
             if a.risky:
                 feat = next(iter(a.risky))
                 tw = O.twin(spec, feat, tok)
                 j = register(family, tw, role="twin", of=i)
                 meta[i]["twin"] = j
-                batch.append({"i": j, "xml": O.to_xml(tw)})
+                batch.append({"i": j, "xml": O.to_xml(tw), "hist": j % HISTORY_EVERY == 0})
             if len(batch) >= BATCH:
                 yield {"mode": "trees", "items": batch}
                 batch = []
@@ -736,6 +828,14 @@ def main(run):
             run.count("clause4_balance_checked")
         if ob.get("attempts", 1) > 1:
             run.count("cpu_budget_reruns")
+        if ob.get("hist"):
+            run.count("history_trees")
+            for st in ob["hist"]:
+                run.count("history_steps_compared")
+                run.count("history_step:" + st["kind"])
+                if st.get("raised"):
+                    run.count("history_step_raised_on_both:" + st["raised"])
+                run.case(["history", st["kind"], "agree" if st["agree"] else "differ", st.get("raised")])
         risky = next(iter(a.risky)) if a.risky else None
         feature = risky or "clean"
         if m["role"] == "twin":
@@ -805,6 +905,9 @@ def main(run):
     for k in O.STRUCT:
         run.count("template_compared_" + k, compared_kind.get(k, 0))
         run.require("template_compared_" + k, compared_kind.get(k, 0), 100)
+    run.require("history_trees", run.counters.get("history_trees", 0), n_trees // (HISTORY_EVERY + 1))
+    for kind in HISTORY_STEPS:
+        run.require("history_step:" + kind, run.counters.get("history_step:" + kind, 0), 1000)
     run.require("malformed_radical_trees", run.counters.get("malformed_radical_trees", 0), 300)
     for ft in ("run:text-in-w:t-of-m:r", "run:text-in-w:r"):
         run.require("clause3_checked_with_" + ft, run.counters.get("clause3_checked_with_" + ft, 0), 300)
@@ -922,7 +1025,7 @@ def replay(run, doc):
         if not spec:
             continue
         a = O.analyse(spec)
-        ob = _observe(O.to_xml(spec))
+        ob = _observe(O.to_xml(spec), True)
         v = judge(O, a, ob)
         print(f"--- {label}: risky={sorted(a.risky)} unclaimed={sorted(a.unclaimed)} malformed={a.malformed}")
         print("xml     :", O.to_xml(spec))
